@@ -115,6 +115,7 @@ func (x *extState) gone(name string, t int64) {
 func (c *checker) startImage(s *server, e *sim.Ev) {
 	s.resetNotes()
 	s.state = Follower
+	s.startTerm, s.startMaxTerm = s.disk.kvi["CurrentTerm"], s.maxTerm
 }
 
 // checkStarted compares what the new incarnation reports with the durable image.
@@ -123,11 +124,14 @@ func (c *checker) checkStarted(s *server, e *sim.Ev) {
 	key := instKey{e.S, e.Ep}
 	term, last, cfg := e.A, e.B, e.X
 	c.cov("restart-checked")
-	if want := d.kvi["CurrentTerm"]; term != want {
-		c.violate("C10", "restart-wrong-term", e.Seq, "%s restarted reporting term %d but its durable term is %d", key, term, want)
+	// The new incarnation is already live when the harness reads its term (its main loop and the
+	// heartbeat fast path run before NewRaft returns to the caller): what it reports lies between
+	// the term of the image it started from and its durable term now.
+	if want := d.kvi["CurrentTerm"]; term < s.startTerm || term > want {
+		c.violate("C10", "restart-wrong-term", e.Seq, "%s restarted reporting term %d but its durable term was %d when it started and is %d now", key, term, s.startTerm, want)
 	}
-	if term < s.maxTerm {
-		c.violate("C06", "term-decrease-across-restart", e.Seq, "%s restarted with term %d after having reported term %d", key, term, s.maxTerm)
+	if term < s.startMaxTerm {
+		c.violate("C06", "term-decrease-across-restart", e.Seq, "%s restarted with term %d after having reported term %d", key, term, s.startMaxTerm)
 	}
 	if term > s.maxTerm {
 		s.maxTerm = term
@@ -239,6 +243,11 @@ func (x *extState) hook(c *checker, s *server, key instKey, e *sim.Ev) {
 		x.leaseStepdown(c, s, key, e)
 	case "h.dispatch":
 		c.cov("dispatch")
+		// C01/C04: entries of term T are created by the one leader of T only (otherwise two
+		// different entries can carry the same index and term and the log-matching argument is void)
+		if l := c.leaders[e.C]; l == nil || l.key != key {
+			c.violate("C01", "entry-created-by-non-leader", e.Seq, "%s appended entries %d..%d with term %d to its log as leader, but the leader of term %d is %v", key, e.A, e.B, e.C, e.C, l)
+		}
 		for i := len(c.leadLog) - 1; i >= 0; i-- {
 			if l := c.leadLog[i]; l.key == key && !l.ended {
 				if !l.active {
